@@ -60,9 +60,11 @@ TEXT = {
              "send step, remote offset measured inside the loop, append) + differential runs of the real `work results` ControlFunc/"
              "GetResults against a scripted producer (chunk sizes around the 64 KiB buffer, start offsets 0..size and beyond, asked "
              "before/while/after the unit runs, slow and fast consumers, final states succeeded/failed/cancelled), every received byte "
-             "checked against its position.",
-        note=BASE_NOTE + "The remote mirror is proved on the model and tied by facts only (no run across real link cuts); polling "
-             "intervals are real time: 'ends' is observed within 4 s."),
+             "checked against its position; and a mirror engine: two real nodes, a remote unit whose output the harness produces on "
+             "the executing node, the link between the nodes cut and restored while status and output are mirrored — the local copy is "
+             "watched for being a prefix of the remote output at every moment and equal to it in the end.",
+        note=BASE_NOTE + "Polling intervals are real time: 'ends' is observed within 4 s; relay-node and control-service restarts "
+             "during mirroring are not exercised."),
     "C08": dict(
         text="Theorems line_no_crash, session_no_crash, invalid_gets_error, garbage_then_valid, sessions_isolated, reader_lines over "
              "a model of RunControlSession (byte-wise reader, JSON/plain dispatch, command table) and of InitFromString/InitFromJSON of "
